@@ -32,7 +32,7 @@ ASSUMPTIONS = ['for md.Trajectory data the metric model is mdtraj.rmsd itself on
                'as tie-free (every farthest-point choice and stopping test unambiguous beyond 1e-6 relative)']
 REACH_EXPECTED = ['rmsd_trajectory_data', 'farthest_point_changed_owner', 'rank_with_single_frame', 'eager_root_ran_ahead',
                   'equal_length_group_on_rank', 'tie_free_equality_checked', 'kmedoids_stage_checked',
-                  'schedule_independence_checked', 'op_randind_empty_local', 'app_end_to_end', 'app_equals_serial', 'app_subsample', 'app_files_not_in_name_order', 'app_no_reassign_without_subsample', 'traj_app_end_to_end', 'traj_app_equals_serial', 'traj_app_subsample', 'traj_app_two_topologies']
+                  'schedule_independence_checked', 'op_randind_empty_local', 'app_end_to_end', 'app_equals_serial', 'app_subsample', 'app_files_not_in_name_order', 'app_no_reassign_without_subsample', 'traj_app_end_to_end', 'traj_app_equals_serial', 'traj_app_subsample', 'traj_app_two_topologies', 'traj_app_three_groups', 'traj_app_group_without_centre']
 
 
 def scenario(ctx):
@@ -58,6 +58,8 @@ def pipeline(ctx):
                   allow_rmsd=True)
     k, cutoff = P.draw_stop(ctx)
     algo = t.choice(('kcenters', 'kcenters_tri', 'hybrid0', 'hybrid'))
+    if algo == 'kcenters_tri' and not P.is_metric():
+        algo = 'kcenters'
     n_iters = t.irange(1, 3) if algo == 'hybrid' else 0
     rseed = 0 if t.flag(1, 8) else t.draw(1000)        # zero is a seed like any other
     poison = t.draw(7) if t.flag(2, 3) else 0
